@@ -33,6 +33,25 @@ theorem C08_binary_roundtrip (b : Bytes) :
   · simp [Spec.Metadata.carriesBinary, B64.decode_encode]
   · intro pad; simp [valueToBytes, B64.decode_encode]
 
+/-- **Size of a stored binary value, for every length.** The text a binary value is stored and sent
+as has exactly `⌈4n/3⌉` symbols (`4·⌈n/3⌉` in the padded form a peer may send) — so no raw length
+is special: there is no length at which a value is refused, truncated or stored differently (what a
+fixed-size encode buffer sized by the raw length gets wrong from 769 bytes on, seed C08j). -/
+theorem C08_binary_stored_length (b : Bytes) :
+    (∃ w, valueFromBytes .binary b = some w ∧ w.length = (4 * b.length + 2) / 3) ∧
+    (B64.encode true b).length = 4 * ((b.length + 2) / 3) := by
+  have h : ∀ pad, (B64.encode pad b).length
+      = if pad then 4 * ((b.length + 2) / 3) else (4 * b.length + 2) / 3 := by
+    intro pad
+    fun_induction B64.encode pad b with
+    | case1 a b c rest ih => cases pad <;> simp_all <;> omega
+    | case2 a b => cases pad <;> simp
+    | case3 a => cases pad <;> simp
+    | case4 => cases pad <;> simp
+  exact ⟨⟨_, rfl, by simpa using h false⟩, by simpa using h true⟩
+
+example : (valueFromBytes .binary (List.replicate 800 7)).map List.length = some 1067 := by decide +kernel
+
 /-- ASCII values are stored and returned verbatim, and are accepted iff they are legal header
 values. -/
 theorem C08_ascii_verbatim (b : Bytes) :
